@@ -50,7 +50,7 @@ static void scenario(const std::string &scen, int run, Circuit base, const Coloq
       for (size_t k = 0; k < segs.size(); ++k) cand.push_back((int)k);
       std::shuffle(cand.begin(), cand.end(), r.g);
       for (int k : cand) {
-        CellOrientation o = cellOrientationInRow(a.cellRowPolarity_[c], segs[k].orientation);
+        CellOrientation o = vg::expectedOrientationInRow(a.cellRowPolarity_[c], segs[k].orientation);
         if (o == CellOrientation::INVALID) continue;
         int remaining = segs[k].maxX - cursor[k];
         int w = a.cellWidth_[c];
@@ -60,7 +60,15 @@ static void scenario(const std::string &scen, int run, Circuit base, const Coloq
         a.cellWidth_[c] = w;
         a.cellHeight_[c] = H;
         if (o != CellOrientation::UNKNOWN) a.cellOrientation_[c] = o;
-        else if (isTurn(a.cellOrientation_[c])) a.cellOrientation_[c] = CellOrientation::N;
+        else if (isTurn(a.cellOrientation_[c])) {
+          // an unrestricted cell may stay turned: its unrotated size is then (H, w) for a placed footprint of w x H
+          if (argi("turned", 1)) {
+            a.cellWidth_[c] = H;
+            a.cellHeight_[c] = w;
+          } else {
+            a.cellOrientation_[c] = CellOrientation::N;
+          }
+        }
         a.cellX_[c] = cursor[k] + gap;
         a.cellY_[c] = segs[k].minY;
         cursor[k] += gap + w;
